@@ -84,7 +84,10 @@ class Gen:
             v = TS_CHOICES[p.choice(len(TS_CHOICES))]
             return v, v
         if is_list_type(dt):
-            n = p.choice(self.max_list + 1)
+            if self.const:
+                n = min(max(dt.min_items or 0, 1), dt.max_items or 1)
+            else:
+                n = p.choice(self.max_list + 1)
             vals, shs = [], []
             for _ in range(n):
                 v, s = self.build(dt.data_type, depth + 1)
